@@ -28,7 +28,8 @@ RULE = ("generated programs (3-7 functions over two modules of one package: meme
         '; round 6: callees-first call order with the arguments callers pass, helpers defined twice (old name kept), tuple/list sequence variables, aimed re-pinning of two explicit versions'
         '; rounds 7-9: failing calls inside / after try blocks, closure-cell factory products, decorators with arguments and decorators without functools.wraps, weighted alias calls with aliases exchanging their targets, set constants of bytes / tuples, string constants inside generator expressions and lambdas of a body, lambda helpers on continuation lines'
         '; rounds 10-11: plain helpers and lambdas as default values, parameter names exchanged under keyword calls, module-level partial clones with an edited bound argument'
-        '; round 12: a helper re-executed reading a new variable, then the variable changes')
+        '; round 12: a helper re-executed reading a new variable, then the variable changes'
+        '; round 13: a variable read only beneath a memento callee, caller asked first')
 ASSUMPTIONS = ["expected values come from running Python on the same source with memento_function = identity",
                "UndeclaredDependencyError is an accepted outcome (and counted)",
                "hidden dynamic calls target memento functions only; hidden variable reads, helpers in other packages, "
